@@ -26,7 +26,7 @@ SPEC_PART = dict(
            "mutations of spec-encoded images of every variant (bit/byte flips, boundary values in every lg/count/flag field, "
            "truncation at every offset, extension, payload damage, random bytes) plus crafted images: every type x flags 0x18 / "
            "0x08 / 0x10 / 0 with NaN (three payloads), +-infinity, negative, -0, 0, subnormal, 1e300, f64::MAX in kxq0 / kxq1 / "
-           "hip_accum, and list / set images whose occupied slots disagree with the count, repeat a coupon or carry value 0; model "
+           "hip_accum, list / set images whose occupied slots disagree with the count, repeat a coupon or carry value 0, and updatable set tables (lg size 5..7) holding 3/4 size (the largest valid load), 3/4 size + 1, size - 1 and size distinct coupons, each followed by at least 12 novel updates (a full table accepted would hit unreachable!('HashSet full')); model "
            "and crate must agree on Ok/Err and on the dumped state; every Ok value is queried (estimate + six bounds: in lock step "
            "with the model when in order, crate-only when out of order), re-serialized, re-read, merged into a union, updated, "
            "round-tripped and queried again; any panic or allocation above 64 * len + 1 MiB is a violation (debug + release). "
